@@ -464,4 +464,168 @@ def Window.step (w : Window α) (threshold : α) (next : P α) : Option (Window 
 def Window.begin (w : Window α) (threshold : α) (p : P α) : Option (Window α) :=
   ({ w with mayNeedEmptyCap := false } : Window α).step threshold p
 
+/-! ## Fixed-width polylines with bevel joins and butt caps: the vertex / triangle skeleton
+
+`fixed_width_step_impl` + `compute_join_side_positions_fixed_width` (the fold decision and which
+side gets a single vertex) + `add_join_base_vertices` + `add_edge_triangles` + `tessellate_join` +
+`end` / `end_with_caps` / `close` (with `tessellate_last_edge` / `tessellate_first_edge` reduced to
+their two vertices and the edge triangles), for `LineJoin::Bevel`, `LineCap::Butt`, points that are
+not flattening steps.  Predicts, per path, the sequence of `(source endpoint, side)` of the
+emitted vertices and the triangle list; positions are not part of this skeleton. -/
+
+namespace Poly
+section
+variable [Transc α]
+
+/-- `VertexId(u32::MAX)`: the default of `SidePoints::{prev,next}_vertex` -/
+def unsetId : Nat := 4294967295
+
+/-- the part of `EndpointData` the skeleton needs -/
+structure Pt (α : Type) where
+  pos : P α
+  src : Nat
+  ids : JoinIds
+
+def Pt.new (p : P α) (src : Nat) : Pt α := ⟨p, src, ⟨unsetId, unsetId, unsetId, unsetId, false, false⟩⟩
+
+/-- discrete output: `(source endpoint, side)` per vertex, ids are positions in the list -/
+structure Mesh where
+  nextId : Nat
+  verts : List (Nat × Side)
+  tris : List Tri
+
+def Mesh.add (m : Mesh) (src : Nat) (side : Side) : Mesh := ⟨m.nextId + 1, m.verts ++ [(src, side)], m.tris⟩
+def Mesh.addTris (m : Mesh) (t : List Tri) : Mesh := ⟨m.nextId, m.verts, m.tris ++ t⟩
+/-- one vertex if `single`, else two (`prev`, `next`) -/
+def Mesh.addSide (m : Mesh) (src : Nat) (side : Side) (single : Bool) : Mesh :=
+  if single then m.add src side else (m.add src side).add src side
+
+/-- the decisions of `compute_join_side_positions_fixed_width` for a bevel join: which side is the
+front (outer) side, and whether the join folds -/
+structure JoinShape where
+  frontNeg : Bool
+  fold : Bool
+
+def joinShape (prev join next : P α) (hw : α) : JoinShape :=
+  let pt0 := join - prev
+  let nt0 := next - join
+  let pl := Transc.sqrt pt0.sqLen
+  let nl := Transc.sqrt nt0.sqLen
+  let pt := pt0.sdiv pl
+  let nt := nt0.sdiv nl
+  let normal := computeNormal pt nt
+  let frontNeg := decide (pt.cross nt ≥ zero)
+  let frontNormal : P α := if frontNeg then -normal else normal
+  let ext := frontNormal.smul hw
+  let sharp := decide (nt.dot pt < zero)
+  let dNext := ext.dot (-nt) - nl
+  let dPrev := ext.dot pt - pl
+  ⟨frontNeg, sharp && (decide (Scalar.min dNext dPrev > zero) || decide (normal.sqLen < ofSci 1 5))⟩
+
+/-- join vertices (`add_join_base_vertices`, negative side first) and the interior triangles of
+`tessellate_join` for the join `join` between `prev` and the point at `nextPos` -/
+def joinAt (hw : α) (prev join : Pt α) (nextPos : P α) (m : Mesh) : Pt α × Mesh × List Tri :=
+  let sh := joinShape prev.pos join.pos nextPos hw
+  -- the back side gets the single (inner miter) vertex unless the join folds
+  let negSingle := !sh.fold && !sh.frontNeg
+  let posSingle := !sh.fold && sh.frontNeg
+  let n0 := m.nextId
+  let m1 := m.addSide join.src .negative negSingle
+  let p0 := m1.nextId
+  let m2 := m1.addSide join.src .positive posSingle
+  let foldPos := join.ids.foldPos || (sh.fold && !sh.frontNeg)
+  let foldNeg := join.ids.foldNeg || (sh.fold && sh.frontNeg)
+  let ids : JoinIds := ⟨p0, if posSingle then p0 else p0 + 1, n0, if negSingle then n0 else n0 + 1, foldPos, foldNeg⟩
+  ({ join with ids := ids }, m2, joinInterior ids (!posSingle && !foldNeg) (!negSingle && !foldPos))
+
+structure State (α : Type) where
+  buf : PointBuffer (Pt α)
+  firsts : List (Pt α)
+  mesh : Mesh
+
+def State.new (m : Mesh) : State α := ⟨PointBuffer.new (Pt.new ⟨zero, zero⟩ unsetId), [], m⟩
+
+def isTooClose (thr : α) (st : State α) (p : P α) : Bool :=
+  match st.buf.last with
+  | some l => pointsAreTooClose thr l.pos p
+  | none => false
+
+/-- the join part of `fixed_width_step_impl` (`count > 1`) -/
+def stepJoin (hw : α) (st : State α) (next : Pt α) : State α :=
+  match st.buf.lastTwo with
+  | some (prev, join) =>
+    let (join', m1, inter) := joinAt hw prev join next.pos st.mesh
+    let m2 := if st.buf.count > 2 then m1.addTris (addEdgeTriangles prev.ids join'.ids) else m1
+    { buf := (st.buf.replaceLast join').getD st.buf
+      firsts := if st.buf.count == 2 then [prev, join'] else st.firsts
+      mesh := m2.addTris inter }
+  | none => st
+
+/-- `fixed_width_step_impl`; the flag is its `Ok(bool)` ("segment added") -/
+def step (thr hw : α) (st : State α) (next : Pt α) : State α × Bool :=
+  if isTooClose thr st next.pos then (st, false) else
+    let st1 := if st.buf.count > 1 then stepJoin hw st next else st
+    ({ st1 with buf := (st1.buf.push next).getD st1.buf }, true)
+
+/-- `end_with_caps` for butt caps -/
+def endWithCaps (st : State α) : Mesh :=
+  match st.buf.lastTwo with
+  | none => st.mesh
+  | some (p0, p1) =>
+    -- tessellate_last_edge: positive then negative vertex at p1, edge triangles unless it is the first edge
+    let v := st.mesh.nextId
+    let m1 := (st.mesh.add p1.src .positive).add p1.src .negative
+    let p1' : Pt α := { p1 with ids := { p1.ids with posPrev := v, negPrev := v + 1 } }
+    let m2 := if st.buf.count == 2 then m1 else m1.addTris (addEdgeTriangles p0.ids p1'.ids)
+    let (f, s) : Pt α × Pt α := if st.buf.count > 2 then
+        (st.firsts.headD p0, (st.firsts.drop 1).headD p1') else (p0, p1')
+    -- tessellate_first_edge
+    let w := m2.nextId
+    let m3 := (m2.add f.src .positive).add f.src .negative
+    let f' : Pt α := { f with ids := { f.ids with posNext := w, negNext := w + 1 } }
+    m3.addTris (addEdgeTriangles f'.ids s.ids)
+
+/-- the last-point fix-up of `close` when the step to the first point was merged -/
+def fixUp (st : State α) (pos : P α) : State α :=
+  match st.buf.last with
+  | some l => { st with buf := (st.buf.replaceLast { l with pos := pos }).getD st.buf }
+  | none => st
+
+/-- `close` for `count > 2` -/
+def close (thr hw : α) (st : State α) : Mesh :=
+  match st.firsts with
+  | p :: p2 :: _ =>
+    let (st1, added) := step thr hw st p
+    let st2 := if added then st1 else fixUp st1 p.pos
+    let (st3, _) := step thr hw st2 p2
+    match st3.buf.lastTwo with
+    | some (q0, q1) =>
+      -- re-create the two vertices of q0 on the edge towards the second endpoint
+      let v := st3.mesh.nextId
+      let m1 := (st3.mesh.add q0.src .positive).add q0.src .negative
+      let q0' : Pt α := { q0 with ids := { q0.ids with posNext := v, negNext := v + 1 } }
+      m1.addTris (addEdgeTriangles q0'.ids q1.ids)
+    | none => st3.mesh
+  | _ => st.mesh
+
+/-- `end(close)`: closes when `close && count > 2`, else caps; the window and `firsts` are cleared -/
+def finish (thr hw : α) (st : State α) (closed : Bool) : Mesh :=
+  if closed && st.buf.count > 2 then close thr hw st else endWithCaps st
+
+/-- one sub-path: `begin`, `line_to`*, `end(close)`; `src` numbers the endpoints -/
+def subPath (thr hw : α) (m : Mesh) (src : Nat) (pts : List (P α)) (closed : Bool) : Mesh :=
+  let go := pts.foldl (fun (acc : State α × Nat) p => ((step thr hw acc.1 (Pt.new p acc.2)).1, acc.2 + 1))
+    (State.new m, src)
+  finish thr hw go.1 closed
+
+/-- a whole path through `StrokeTessellator::tessellate` (endpoint ids count the events) -/
+def path (tolerance lineWidth : α) (subs : List (List (P α) × Bool)) : Mesh :=
+  let thr := squareMergeThreshold tolerance lineWidth
+  let hw := lineWidth * half
+  (subs.foldl (fun (acc : Mesh × Nat) s => (subPath thr hw acc.1 acc.2 s.1 s.2, acc.2 + s.1.length))
+    ((⟨0, [], []⟩ : Mesh), 0)).1
+
+end
+end Poly
+
 end Lyon.Stroke
